@@ -42,14 +42,15 @@ type Step struct {
 }
 
 type Case struct {
-	N     int      `json:"n"`
-	Edges [][2]int `json:"e"`
-	Modes []int    `json:"m"`              // per edge: which ends have the static active-sync route
-	Late  []int    `json:"late,omitempty"` // routers that are not started at time 0
-	Chaos int      `json:"chaos,omitempty"`
-	Steps []Step   `json:"steps"`
-	Sched Sched    `json:"sched"`
-	Twin  bool     `json:"twin,omitempty"` // C18: run again under another delivery schedule and compare next hops
+	Nested bool     `json:"nested,omitempty"` // the routers' names are prefixes of one another (namesNested)
+	N      int      `json:"n"`
+	Edges  [][2]int `json:"e"`
+	Modes  []int    `json:"m"`              // per edge: which ends have the static active-sync route
+	Late   []int    `json:"late,omitempty"` // routers that are not started at time 0
+	Chaos  int      `json:"chaos,omitempty"`
+	Steps  []Step   `json:"steps"`
+	Sched  Sched    `json:"sched"`
+	Twin   bool     `json:"twin,omitempty"` // C18: run again under another delivery schedule and compare next hops
 }
 
 var prefixPool = []string{"/p/a", "/p/b", "/p/a/x", "/q", "/r0/app"}
@@ -303,6 +304,11 @@ func (c Case) modeOf(a, b int) int {
 // runSim executes the case once (inside a bubble) under the given schedule.
 func runSim(t *testing.T, c Case, sched Sched) (res simResult) {
 	res.classes = map[string]bool{}
+	routerNames = namesFlat
+	if c.Nested {
+		routerNames = namesNested
+		res.classes["router-names-that-are-prefixes-of-one-another"] = true
+	}
 	defer func() {
 		// synctest panics when the bubble cannot end (goroutines blocked for ever)
 		if r := recover(); r != nil {
